@@ -189,35 +189,7 @@ fn check_cli(t: &mut Tape, stats: &mut Stats) -> Vec<Failure> {
 
 fn fuzz_campaign(ctx: &Ctx, target: &str, seconds: u64) {
     // thorough tier only: coverage-guided campaign; a crash artifact becomes a violation
-    let fuzz_dir = ctx.root.join("harness").join("fuzz");
-    if !fuzz_dir.join("Cargo.toml").exists() {
-        ctx.note(&format!("fuzz_{}", target), json!("fuzz package missing"));
-        return;
-    }
-    let corpus = tool::fresh_dir(&format!("fuzzcorpus-{}-", target));
-    let artifacts = tool::fresh_dir(&format!("fuzzart-{}-", target));
-    // seed corpus: the repository's fixtures
-    if let Ok(rd) = std::fs::read_dir("/repo/tests/fixtures") {
-        for e in rd.flatten() {
-            let _ = std::fs::copy(e.path(), corpus.join(e.file_name()));
-        }
-    }
-    let out = std::process::Command::new("cargo")
-        .args(["+nightly", "fuzz", "run", target, corpus.to_str().unwrap(), "--", &format!("-max_total_time={}", seconds), &format!("-seed={}", (ctx.seed % 0x7fff_ffff).max(1)), "-len_control=0", "-max_len=4096", &format!("-dict={}", fuzz_dir.join("dict.txt").display()), "-timeout=20", "-rss_limit_mb=4096", &format!("-artifact_prefix={}/", artifacts.display()), &format!("-fork={}", ctx.workers.min(8)), "-ignore_crashes=0"])
-        .current_dir(ctx.root.join("harness"))
-        .env("CARGO_NET_OFFLINE", "true")
-        .env("TTGV_FUZZ_ALLOW", ctx.known.iter().filter(|k| k.status == "known").flat_map(|k| k.tags_all.iter()).filter_map(|t| t.strip_prefix("panic_at=")).collect::<Vec<_>>().join(","))
-        .output();
-    let Ok(out) = out else {
-        crate::run::infra_exit("cannot start cargo fuzz");
-    };
-    let log = String::from_utf8_lossy(&out.stderr).to_string();
-    let execs = log.lines().rev().find_map(|l| l.split("stat::number_of_executed_units:").nth(1).map(|x| x.trim().to_string())).or_else(|| log.lines().rev().find(|l| l.contains("#") && l.contains("exec/s")).map(|l| l.to_string()));
-    ctx.note(&format!("fuzz_{}", target), json!({"seconds": seconds, "executions": execs, "status": out.status.code()}));
-    let mut crashes: Vec<PathBuf> = std::fs::read_dir(&artifacts).map(|rd| rd.flatten().map(|e| e.path()).filter(|p| p.file_name().map_or(false, |n| n.to_string_lossy().starts_with("crash-"))).collect()).unwrap_or_default();
-    crashes.sort();
-    for c in crashes.iter().take(3) {
-        let bytes = std::fs::read(c).unwrap_or_default();
+    for (bytes, log) in crate::fuzz::campaign(ctx, target, seconds, &[], "/repo/tests/fixtures") {
         let text = String::from_utf8_lossy(&bytes).to_string();
         let fails = match target {
             "fz_file" => {
@@ -228,11 +200,6 @@ fn fuzz_campaign(ctx: &Ctx, target: &str, seconds: u64) {
         };
         ctx.single(&format!("c15.fuzz.{}", target), json!({"fuzz_target": target, "input": text}), |_| fails);
     }
-    if out.status.code() != Some(0) && crashes.is_empty() && !log.contains("Done") {
-        crate::run::infra_exit(&format!("cargo fuzz run {} failed without a crash artifact: {}", target, crate::run::truncate(&log, 800)));
-    }
-    let _ = std::fs::remove_dir_all(&corpus);
-    let _ = std::fs::remove_dir_all(&artifacts);
 }
 
 pub fn run(ctx: &Ctx) {
